@@ -2,6 +2,7 @@
    Model: Model/Hopper.v; proofs: Proof/HopperP.v (+ PoissonP for the Poisson option). *)
 From Coq Require Import Reals List Lra.
 From MV Require Import Ops RInst Vec Cplx Poisson Hopper HopperP.
+From MV Require Hop Propagate Traj TrajP.
 Import ListNotations.
 Open Scope R_scope.
 
@@ -64,6 +65,22 @@ Print Assumptions C03_poisson_total_and_ratios.
 
 (* "attempts occur with exactly those probabilities": the slot of n is an interval of
    length p_n inside [0,1); uniformity of the random number is numpy's contract (oracle). *)
+
+(* in the assembled loop body (Model/Traj.step) the probabilities handed to the hopper are built from the density matrix AFTER
+   the electronic step and from the same midpoint propagator W (new and old velocity) that drove it; the recorded attempt is
+   the hopper's answer, so the slot theorem above decides the target of the pass *)
+Theorem C03_full_step_attempt :
+  forall n m dt poisson zeta (e0 e1 : Traj.elec (T:=R)) lam Cm (s s' : Traj.tstate (T:=R)) W hp att,
+  Traj.step ROps n m dt poisson zeta e0 e1 lam Cm s = (s', W, hp, att) ->
+  let f0 := nth (Traj.pact s) (Traj.eforce e0) [] in let f1 := nth (Traj.pact s) (Traj.eforce e1) [] in
+  let v1 := Hop.advance_velocity ROps m (Traj.pv s) f0 f1 dt in
+  let rho1 := Propagate.exp_step ROps n lam Cm dt (Traj.prho s) in
+  let g := gkndt ROps (Traj.row ROps n rho1 (Traj.pact s)) (Traj.colm ROps n W (Traj.pact s)) (Traj.pact s) dt in
+  W = Propagate.Wmid ROps n (Traj.eH e0) (Traj.eH e1) (Traj.etau e0) (Traj.etau e1) v1 (Traj.pv s)
+  /\ fst (hopper ROps poisson g zeta) = option_map fst att
+  /\ hp = snd (hopper ROps poisson g zeta).
+Proof. intros n m dt poisson zeta e0 e1 lam Cm s s' W hp att H. exact (TrajP.step_attempt n m dt poisson zeta e0 e1 lam Cm s s' W hp att H). Qed.
+Print Assumptions C03_full_step_attempt.
 
 Example C03_witness :
   let ps := [1/4; 0; 1/2] in Forall (fun p => 0 <= p) ps /\ hop_target ROps ps (1/4) = Some 2%nat.
